@@ -46,8 +46,9 @@ LSTRIP_SETS = [["src/"], ["lib/"], ["lib/deep/"], ["src/", "docs/"], ["lib/", "d
                ["nothing/", "src/"]]
 
 
-def gen_opts(rng, allow_paths=False):
-    """Recording options of one history (the same for all its steps, so that the chain rules line up)."""
+def gen_opts(rng, allow_paths=False, case_no=None):
+    """Recording options of one history (the same for all its steps, so that the chain rules line up). With a case
+    number every exclude set and every prefix list occurs in every run (cycled through), alone and combined at random."""
     opts = {"exclude": None, "lstrip": None, "base": False, "paths": None}
     if allow_paths and rng.random() < 0.3:
         opts["paths"] = "top-level"      # the material / product lists name the top-level entries one by one (filled in later)
@@ -55,6 +56,10 @@ def gen_opts(rng, allow_paths=False):
         opts["exclude"] = rng.choice(EXCLUDE_SETS)
     if rng.random() < 0.4:
         opts["lstrip"] = rng.choice(LSTRIP_SETS)
+    if case_no is not None and case_no % 3 == 0:
+        opts["exclude"] = EXCLUDE_SETS[(case_no // 3) % len(EXCLUDE_SETS)]
+    if case_no is not None and case_no % 3 == 1:
+        opts["lstrip"] = LSTRIP_SETS[(case_no // 3) % len(LSTRIP_SETS)]
     if rng.random() < 0.3:
         opts["base"] = True
     return opts
